@@ -486,4 +486,356 @@ Proof.
   rewrite app_length. cbn [length]. rewrite Nat.add_succ_r. rewrite pp_filename by exact Hx.
   rewrite Nat.add_succ_r. reflexivity.
 Qed.
+
+Lemma take_until_slash_id l : forallb (fun c => negb (c =? 47)) l = true -> take_until_slash l = l.
+Proof.
+  induction l as [|c l IH]; cbn; [reflexivity|]. intros H. apply andb_true_iff in H as [H1 H2].
+  apply negb_true_iff in H1. rewrite H1. now rewrite IH.
+Qed.
+
+Lemma path_base_id x : x <> [] -> forallb (fun c => negb (c =? 47)) x = true -> path_base x = x.
+Proof.
+  intros Hx Hs. unfold path_base.
+  assert (forallb (fun c => negb (c =? 47)) (rev x) = true) as Hr.
+  { rewrite forallb_forall in *. intros c Hc. apply Hs. now apply in_rev. }
+  destruct (rev x) as [|c r] eqn:E.
+  - exfalso. apply Hx. rewrite <- (rev_involutive x), E. reflexivity.
+  - cbn [forallb] in Hr. pose proof Hr as Hr'. apply andb_true_iff in Hr as [Hc _]. apply negb_true_iff in Hc.
+    cbn [drop_trailing_slash]. rewrite Hc.
+    rewrite take_until_slash_id by exact Hr'. rewrite <- E. apply rev_involutive.
+Qed.
+
+Definition h_cd : bytes := s2b "Content-Disposition".
+Definition h_ct : bytes := s2b "Content-Type".
+
+Lemma part_names_field n : forallb is_value_char n = true -> part_names [(h_cd, disp_field n)] = (n, []).
+Proof.
+  intros Hn. unfold part_names.
+  replace (header_get (s2b "Content-Disposition") [(h_cd, disp_field n)]) with (disp_field n) by reflexivity.
+  rewrite parse_disp_field by exact Hn. reflexivity.
+Qed.
+
+Lemma part_names_file n x ct : forallb is_value_char n = true -> forallb is_value_char x = true ->
+  x <> [] -> forallb (fun c => negb (c =? 47)) x = true ->
+  part_names [(h_cd, disp_file n x); (h_ct, ct)] = (n, x).
+Proof.
+  intros Hn Hx Hne Hs. unfold part_names.
+  replace (header_get (s2b "Content-Disposition") [(h_cd, disp_file n x); (h_ct, ct)]) with (disp_file n x) by reflexivity.
+  rewrite parse_disp_file by assumption.
+  replace (assoc (s2b "filename") [(k_name, n); (k_filename, x)]) with (Some x) by reflexivity.
+  replace (beq k_formdata (s2b "form-data")) with true by reflexivity.
+  replace (assoc (s2b "name") [(k_name, n); (k_filename, x)]) with (Some n) by reflexivity.
+  destruct x as [|c x']; [congruence|]. now rewrite path_base_id.
+Qed.
+
+Lemma header_get_ct n x ct : header_get (s2b "Content-Type") [(h_cd, disp_file n x); (h_ct, ct)] = ct.
+Proof. reflexivity. Qed.
+
+(* ---- all parts ---- *)
+Definition wpart_ok (b : bytes) (p : wpart) : bool := forallb hdr_ok (fst p) && boundary_free b (snd p).
+Definition tail_bytes (b : bytes) (ps : list wpart) : bytes := parts_bytes false b ps ++ close_bytes b.
+
+Lemma next_part_first_ge fuel b rest : (1 <= fuel)%nat -> ~ In 10 b ->
+  next_part fuel b false false (dash_b b ++ crlf ++ rest) = NPPart rest.
+Proof. intros Hf Hb. destruct fuel; [lia|]. now apply next_part_first. Qed.
+Lemma next_part_next_ge fuel b rest : (2 <= fuel)%nat -> ~ In 10 b ->
+  next_part fuel b true false (nl_dash_b b ++ crlf ++ rest) = NPPart rest.
+Proof. intros Hf Hb. destruct fuel as [|[|f]]; try lia. now apply next_part_next. Qed.
+Lemma next_part_final_ge fuel b pr : (2 <= fuel)%nat -> ~ In 10 b ->
+  next_part fuel b pr false (close_bytes b) = NPEof.
+Proof. intros Hf Hb. destruct fuel as [|[|f]]; try lia. now apply next_part_final. Qed.
+
+Lemma hdrs_length hs : (length hs <= length (flat_map hdr_line hs))%nat.
+Proof.
+  induction hs as [|kv hs IH]; cbn [flat_map length]; [lia|]. rewrite app_length.
+  unfold hdr_line at 1. rewrite !app_length. cbn [length crlf]. lia.
+Qed.
+
+Lemma tail_shape b ps : exists after, tail_bytes b ps = nl_dash_b b ++ after /\ match_after after = true.
+Proof.
+  destruct ps as [|p r].
+  - exists (dashes ++ crlf). split; [|reflexivity]. unfold tail_bytes, close_bytes, nl_dash_b. cbn [parts_bytes app].
+    now rewrite <- !app_assoc.
+  - exists (crlf ++ flat_map hdr_line (fst p) ++ crlf ++ snd p ++ tail_bytes b r). split; [|reflexivity].
+    unfold tail_bytes. cbn [parts_bytes]. unfold part_bytes, nl_dash_b. now rewrite <- !app_assoc.
+Qed.
+
+Lemma hdr_block_start hs w : forallb hdr_ok hs = true -> no_lwsp_start (flat_map hdr_line hs ++ crlf ++ w).
+Proof.
+  destruct hs as [|kv hs]; [reflexivity|]. cbn [forallb flat_map]. intros H. apply andb_true_iff in H as [H _].
+  rewrite <- app_assoc. now apply hdr_line_start.
+Qed.
+
+(* what follows a delimiter line: header block, blank line, data, then the rest of the message *)
+Lemma read_one_part b p after : ~ In 13 b -> wpart_ok b p = true -> match_after after = true ->
+  let x := flat_map hdr_line (fst p) ++ crlf ++ snd p ++ nl_dash_b b ++ after in
+  (match x with c :: _ => is_lwsp c | [] => false end) = false /\
+  read_headers (S (length x)) x = HOk (fst p) (snd p ++ nl_dash_b b ++ after) /\
+  scan_body b (snd p ++ nl_dash_b b ++ after) = Some (snd p, nl_dash_b b ++ after).
+Proof.
+  intros Hb Hok Hm x. unfold wpart_ok in Hok. apply andb_true_iff in Hok as [Hh Hd]. repeat split.
+  - pose proof (hdr_block_start (fst p) (snd p ++ nl_dash_b b ++ after) Hh) as Hs. fold x in Hs.
+    destruct x; [reflexivity|exact Hs].
+  - unfold x. apply read_headers_all; auto. rewrite app_length. pose proof (hdrs_length (fst p)). lia.
+  - now apply scan_body_ok.
+Qed.
+
+Lemma read_parts_tail b : ~ In 13 b -> ~ In 10 b -> forall ps fuel, forallb (wpart_ok b) ps = true ->
+  (length ps < fuel)%nat -> read_parts fuel b true (tail_bytes b ps) = Some ps.
+Proof.
+  intros Hb13 Hb10. induction ps as [|p r IH]; intros fuel Hok Hf.
+  - destruct fuel; [lia|]. cbn [read_parts]. unfold tail_bytes. cbn [parts_bytes app].
+    rewrite next_part_final_ge; auto. unfold close_bytes. cbn [length app crlf]. lia.
+  - destruct fuel; [cbn in Hf; lia|]. cbn [forallb] in Hok. apply andb_true_iff in Hok as [Hp Hr].
+    destruct (tail_shape b r) as (after & Ht & Hm).
+    assert (Hs : tail_bytes b (p :: r) = nl_dash_b b ++ crlf ++ (flat_map hdr_line (fst p) ++ crlf ++ snd p ++ nl_dash_b b ++ after)).
+    { unfold tail_bytes in *. cbn [parts_bytes]. unfold part_bytes. rewrite <- !app_assoc. rewrite Ht. unfold nl_dash_b.
+      now rewrite <- !app_assoc. }
+    rewrite Hs. cbn [read_parts]. rewrite next_part_next_ge; auto; [|cbn [length app nl_dash_b crlf]; lia].
+    destruct (read_one_part b p after Hb13 Hp Hm) as (H1 & H2 & H3). cbv zeta in H1, H2.
+    rewrite H1, H2, H3. rewrite <- Ht. rewrite IH; auto. destruct p; reflexivity. cbn in Hf. lia.
+Qed.
+
+Lemma read_parts_all b ps : ~ In 13 b -> ~ In 10 b -> forallb (wpart_ok b) ps = true ->
+  forall fuel, (length ps < fuel)%nat ->
+  read_parts fuel b false (parts_bytes true b ps ++ close_bytes b) = Some ps.
+Proof.
+  intros Hb13 Hb10 Hok fuel Hf. destruct ps as [|p r].
+  - destruct fuel; [lia|]. cbn [read_parts parts_bytes app]. rewrite next_part_final_ge; auto.
+    unfold close_bytes. cbn [length app crlf]. lia.
+  - destruct fuel; [cbn in Hf; lia|]. cbn [forallb] in Hok. apply andb_true_iff in Hok as [Hp Hr].
+    destruct (tail_shape b r) as (after & Ht & Hm).
+    assert (Hs : parts_bytes true b (p :: r) ++ close_bytes b =
+                 dash_b b ++ crlf ++ (flat_map hdr_line (fst p) ++ crlf ++ snd p ++ nl_dash_b b ++ after)).
+    { cbn [parts_bytes]. unfold part_bytes. cbn [app]. unfold tail_bytes in Ht. rewrite <- !app_assoc. rewrite Ht.
+      unfold dash_b. now rewrite <- !app_assoc. }
+    rewrite Hs. cbn [read_parts]. rewrite next_part_first_ge; auto; [|lia].
+    destruct (read_one_part b p after Hb13 Hp Hm) as (H1 & H2 & H3). cbv zeta in H1, H2.
+    rewrite H1, H2, H3. rewrite <- Ht. rewrite read_parts_tail; auto. destruct p; reflexivity. cbn in Hf. lia.
+Qed.
+
+(* ---- ReadForm's maps ---- *)
+Lemma beq_sym a b : beq a b = beq b a.
+Proof.
+  destruct (beq a b) eqn:E.
+  - apply beq_eq in E. subst. symmetry. apply beq_refl.
+  - destruct (beq b a) eqn:E'; [|reflexivity]. apply beq_eq in E'. subst. now rewrite beq_refl in E.
+Qed.
+
+Lemma add_to_new {A} k (v : A) m : existsb (beq k) (map fst m) = false -> add_to k v m = m ++ [(k, [v])].
+Proof.
+  induction m as [|[k' vs] m IH]; cbn; [reflexivity|]. intros H. apply orb_false_iff in H as [H1 H2].
+  rewrite beq_sym, H1. now rewrite IH.
+Qed.
+
+Lemma add_to_last {A} k (v : A) m l : existsb (beq k) (map fst m) = false ->
+  add_to k v (m ++ [(k, l)]) = m ++ [(k, l ++ [v])].
+Proof.
+  induction m as [|[k' vs] m IH]; cbn.
+  - now rewrite beq_refl.
+  - intros H. apply orb_false_iff in H as [H1 H2]. rewrite beq_sym, H1. now rewrite IH.
+Qed.
+
+Definition vpart (k v : bytes) : rawpart := ([(h_cd, disp_field k)], v).
+Definition fpart (k : bytes) (f : mfile) : rawpart :=
+  ([(h_cd, disp_file k (fl_name f)); (h_ct, fl_ctype f)], fl_data f).
+
+Lemma collect_vpart k v r f : name_ok k = true ->
+  collect (vpart k v :: r) f = collect r (Build_mform (add_to k v (fm_values f)) (fm_files f)).
+Proof.
+  intros Hk. unfold name_ok in Hk. apply andb_true_iff in Hk as [Hne Hc]. unfold vpart. cbn [collect].
+  rewrite part_names_field by exact Hc. destruct k; [discriminate|]. reflexivity.
+Qed.
+
+Lemma collect_fpart k x r f : name_ok k = true -> filename_ok (fl_name x) = true ->
+  collect (fpart k x :: r) f = collect r (Build_mform (fm_values f) (add_to k x (fm_files f))).
+Proof.
+  intros Hk Hx. unfold name_ok in Hk. apply andb_true_iff in Hk as [Hne Hc].
+  unfold filename_ok, name_ok in Hx. apply andb_true_iff in Hx as [Hx Hs]. apply andb_true_iff in Hx as [Hxne Hxc].
+  unfold fpart. cbn [collect].
+  assert (fl_name x <> []) as Hn by (destruct (fl_name x); [discriminate|discriminate]).
+  rewrite part_names_file by assumption. rewrite header_get_ct.
+  destruct k; [discriminate|]. destruct (fl_name x) eqn:E; [congruence|]. rewrite <- E. destruct x; reflexivity.
+Qed.
+
+Lemma collect_vgroup k vs : name_ok k = true -> forall l m F r, existsb (beq k) (map fst m) = false ->
+  collect (map (vpart k) vs ++ r) (Build_mform (m ++ [(k, l)]) F) = collect r (Build_mform (m ++ [(k, l ++ vs)]) F).
+Proof.
+  intros Hk. induction vs as [|v vs IH]; intros l m F r Hf; cbn [map app].
+  - now rewrite app_nil_r.
+  - rewrite collect_vpart by exact Hk. cbn [fm_values fm_files]. rewrite add_to_last by exact Hf.
+    rewrite IH by exact Hf. now rewrite <- app_assoc.
+Qed.
+
+Lemma collect_fgroup k xs : name_ok k = true -> forallb (fun x => filename_ok (fl_name x)) xs = true ->
+  forall l m V r, existsb (beq k) (map fst m) = false ->
+  collect (map (fpart k) xs ++ r) (Build_mform V (m ++ [(k, l)])) = collect r (Build_mform V (m ++ [(k, l ++ xs)])).
+Proof.
+  intros Hk. induction xs as [|x xs IH]; intros Hx l m V r Hf; cbn [map app].
+  - now rewrite app_nil_r.
+  - cbn [forallb] in Hx. apply andb_true_iff in Hx as [Hx1 Hx2].
+    rewrite collect_fpart by assumption. cbn [fm_values fm_files]. rewrite add_to_last by exact Hf.
+    rewrite IH by assumption. now rewrite <- app_assoc.
+Qed.
+
+Definition keys_fresh {A} (m : list (bytes * list A)) (ks : list bytes) : Prop :=
+  forall k, In k ks -> existsb (beq k) (map fst m) = false.
+
+Lemma existsb_app_single {A} k (m : list (bytes * list A)) k' l :
+  existsb (beq k) (map fst (m ++ [(k', l)])) = existsb (beq k) (map fst m) || beq k k'.
+Proof. rewrite map_app, existsb_app. cbn. now rewrite orb_false_r. Qed.
+
+Lemma nodupb_cons k ks : nodupb (k :: ks) = true -> existsb (beq k) ks = false /\ nodupb ks = true.
+Proof. cbn. intros H. apply andb_true_iff in H as [H1 H2]. apply negb_true_iff in H1. auto. Qed.
+
+Lemma existsb_beq_false k ks k' : existsb (beq k) ks = false -> In k' ks -> beq k' k = false.
+Proof.
+  intros H Hin. rewrite beq_sym. destruct (beq k k') eqn:E; [|reflexivity].
+  exfalso. rewrite <- not_true_iff_false in H. apply H. apply existsb_exists. eauto.
+Qed.
+
+Lemma collect_values kvs : forall m F r,
+  nodupb (map fst kvs) = true -> keys_fresh m (map fst kvs) ->
+  forallb (fun kv => name_ok (fst kv) && negb (match snd kv with [] => true | _ => false end)) kvs = true ->
+  collect (flat_map (fun kv => map (vpart (fst kv)) (snd kv)) kvs ++ r) (Build_mform m F) =
+  collect r (Build_mform (m ++ kvs) F).
+Proof.
+  induction kvs as [|[k vs] kvs IH]; intros m F r Hnd Hfr Hok; cbn [flat_map map fst snd app].
+  - now rewrite app_nil_r.
+  - cbn [forallb fst snd] in Hok. apply andb_true_iff in Hok as [Hk Hrest]. apply andb_true_iff in Hk as [Hk Hne].
+    cbn [map fst] in Hnd. apply nodupb_cons in Hnd as [Hnk Hnd'].
+    destruct vs as [|v vs]; [discriminate|]. cbn [map]. rewrite <- app_assoc. cbn [app].
+    assert (Hfk : existsb (beq k) (map fst m) = false) by (apply Hfr; now left).
+    rewrite collect_vpart by exact Hk. cbn [fm_values fm_files]. rewrite add_to_new by exact Hfk.
+    rewrite (collect_vgroup k vs Hk [v] m F) by exact Hfk. cbn [app].
+    rewrite IH; auto.
+    + rewrite <- app_assoc. reflexivity.
+    + intros k' Hin. rewrite existsb_app_single. rewrite (Hfr k') by (now right). cbn [orb].
+      now apply (existsb_beq_false k (map fst kvs)).
+Qed.
+
+Lemma collect_files kfs : forall m V r,
+  nodupb (map fst kfs) = true -> keys_fresh m (map fst kfs) ->
+  forallb (fun kv => name_ok (fst kv) && negb (match snd kv with [] => true | _ => false end)
+                     && forallb (fun x => filename_ok (fl_name x)) (snd kv)) kfs = true ->
+  collect (flat_map (fun kv => map (fpart (fst kv)) (snd kv)) kfs ++ r) (Build_mform V m) =
+  collect r (Build_mform V (m ++ kfs)).
+Proof.
+  induction kfs as [|[k xs] kfs IH]; intros m V r Hnd Hfr Hok; cbn [flat_map map fst snd app].
+  - now rewrite app_nil_r.
+  - cbn [forallb fst snd] in Hok. apply andb_true_iff in Hok as [Hk Hrest]. apply andb_true_iff in Hk as [Hk Hx].
+    apply andb_true_iff in Hk as [Hk Hne].
+    cbn [map fst] in Hnd. apply nodupb_cons in Hnd as [Hnk Hnd'].
+    destruct xs as [|x xs]; [discriminate|]. cbn [map]. rewrite <- app_assoc. cbn [app].
+    cbn [forallb] in Hx. apply andb_true_iff in Hx as [Hx1 Hx2].
+    assert (Hfk : existsb (beq k) (map fst m) = false) by (apply Hfr; now left).
+    rewrite collect_fpart by assumption. cbn [fm_values fm_files]. rewrite add_to_new by exact Hfk.
+    rewrite (collect_fgroup k xs Hk Hx2 [x] m V) by exact Hfk. cbn [app].
+    rewrite IH; auto.
+    + rewrite <- app_assoc. reflexivity.
+    + intros k' Hin. rewrite existsb_app_single. rewrite (Hfr k') by (now right). cbn [orb].
+      now apply (existsb_beq_false k (map fst kfs)).
+Qed.
+
+(* ---- the parts the writer makes are readable ---- *)
+Lemma esc_value_chars n : forallb is_value_char n = true -> forallb is_value_char (esc n) = true.
+Proof.
+  induction n as [|c n IH]; intros H; [reflexivity|]. cbn [forallb] in H. apply andb_true_iff in H as [Hc Hn].
+  unfold esc in *. cbn [flat_map]. rewrite forallb_app, (IH Hn), andb_true_r. unfold esc_c.
+  destruct (c =? 92); [reflexivity|]. destruct (c =? 34); [reflexivity|]. cbn. now rewrite Hc.
+Qed.
+
+Lemma hdr_ok_field k : forallb is_value_char k = true -> hdr_ok (h_cd, disp_field k) = true.
+Proof.
+  intros Hk. cbn [hdr_ok]. replace (forallb is_field_char h_cd) with true by reflexivity.
+  change (match h_cd with c :: _ => negb (is_lwsp c) | [] => false end) with true. cbn [andb].
+  unfold disp_field. rewrite forallb_app. replace (forallb is_value_char (s2b "form-data; name=""")) with true by reflexivity.
+  rewrite forallb_app, (esc_value_chars k Hk). cbn [andb forallb].
+  replace (is_value_char 34) with true by reflexivity. cbn [andb].
+  rewrite ends_app; [|discriminate|destruct (esc k); discriminate]. rewrite last_app_ne by discriminate. reflexivity.
+Qed.
+
+Lemma hdr_ok_file k x : forallb is_value_char k = true -> forallb is_value_char x = true ->
+  hdr_ok (h_cd, disp_file k x) = true.
+Proof.
+  intros Hk Hx. cbn [hdr_ok]. replace (forallb is_field_char h_cd) with true by reflexivity.
+  change (match h_cd with c :: _ => negb (is_lwsp c) | [] => false end) with true. cbn [andb].
+  unfold disp_file. rewrite !forallb_app. replace (forallb is_value_char (s2b "form-data; name=""")) with true by reflexivity.
+  replace (forallb is_value_char (s2b """; filename=""")) with true by reflexivity.
+  rewrite (esc_value_chars k Hk), (esc_value_chars x Hx). cbn [andb forallb].
+  replace (is_value_char 34) with true by reflexivity. cbn [andb].
+  rewrite ends_app; [|discriminate|destruct (esc k); discriminate].
+  rewrite !app_assoc. rewrite last_app_ne by discriminate. reflexivity.
+Qed.
+
+Lemma hdr_ok_ctype ct : ctype_ok ct = true -> hdr_ok (h_ct, ct) = true.
+Proof.
+  unfold ctype_ok. intros H. apply andb_true_iff in H as [H1 H2]. cbn [hdr_ok].
+  replace (forallb is_field_char h_ct) with true by reflexivity.
+  change (match h_ct with c :: _ => negb (is_lwsp c) | [] => false end) with true. now rewrite H1, H2.
+Qed.
+
+Lemma form_parts_eq f : form_parts f =
+  flat_map (fun kv => map (vpart (fst kv)) (snd kv)) (fm_values f) ++
+  flat_map (fun kv => map (fpart (fst kv)) (snd kv)) (fm_files f).
+Proof. reflexivity. Qed.
+
+Lemma name_ok_chars k : name_ok k = true -> forallb is_value_char k = true.
+Proof. unfold name_ok. intros H. now apply andb_true_iff in H as [_ H]. Qed.
+
+Lemma parts_ok b f : form_ok b f = true -> forallb (wpart_ok b) (form_parts f) = true.
+Proof.
+  unfold form_ok. intros H. apply andb_true_iff in H as [H Hf]. apply andb_true_iff in H as [_ Hv].
+  rewrite form_parts_eq, forallb_app. apply andb_true_iff. split.
+  - rewrite forallb_forall in *. intros p Hin. apply in_flat_map in Hin as [[k vs] [Hin Hp]]. cbn [fst snd] in Hp.
+    apply in_map_iff in Hp as [v [<- Hv']]. specialize (Hv _ Hin). cbn [fst snd] in Hv.
+    apply andb_true_iff in Hv as [Hk Hd]. apply andb_true_iff in Hk as [Hk _]. rewrite forallb_forall in Hd.
+    unfold wpart_ok, vpart. cbn [fst snd forallb]. rewrite hdr_ok_field by (now apply name_ok_chars). now rewrite Hd.
+  - rewrite forallb_forall in *. intros p Hin. apply in_flat_map in Hin as [[k xs] [Hin Hp]]. cbn [fst snd] in Hp.
+    apply in_map_iff in Hp as [x [<- Hx']]. specialize (Hf _ Hin). cbn [fst snd] in Hf.
+    apply andb_true_iff in Hf as [Hk Hd]. apply andb_true_iff in Hk as [Hk _]. rewrite forallb_forall in Hd.
+    specialize (Hd _ Hx'). unfold file_ok in Hd. apply andb_true_iff in Hd as [Hd Hfree]. apply andb_true_iff in Hd as [Hn Hct].
+    unfold wpart_ok, fpart. cbn [fst snd forallb].
+    unfold filename_ok in Hn. apply andb_true_iff in Hn as [Hn _].
+    rewrite hdr_ok_file by (now apply name_ok_chars). rewrite hdr_ok_ctype by exact Hct. now rewrite Hfree.
+Qed.
+
+Lemma parts_len b ps first : (length ps <= length (parts_bytes first b ps))%nat.
+Proof.
+  revert first; induction ps as [|p r IH]; intros first; cbn [parts_bytes length]; [lia|].
+  rewrite app_length. specialize (IH false). unfold part_bytes. rewrite !app_length. cbn [length dashes]. lia.
+Qed.
+
+Lemma collect_form b f : form_ok b f = true -> collect (form_parts f) (Build_mform [] []) = f.
+Proof.
+  unfold form_ok. intros H. apply andb_true_iff in H as [H Hf]. apply andb_true_iff in H as [H Hv].
+  apply andb_true_iff in H as [Hnv Hnf]. rewrite form_parts_eq.
+  rewrite (collect_values (fm_values f) [] []); auto.
+  - rewrite <- (app_nil_r (flat_map _ (fm_files f))). rewrite (collect_files (fm_files f) [] (fm_values f)); auto.
+    + destruct f; reflexivity.
+    + intros k _. reflexivity.
+    + rewrite forallb_forall in *. intros kv Hin. specialize (Hf _ Hin).
+      apply andb_true_iff in Hf as [Hk Hx]. rewrite Hk. cbn [andb]. rewrite forallb_forall in *. intros x Hx'.
+      specialize (Hx _ Hx'). unfold file_ok in Hx. apply andb_true_iff in Hx as [Hx _]. now apply andb_true_iff in Hx as [Hx _].
+  - intros k _. reflexivity.
+  - rewrite forallb_forall in *. intros kv Hin. specialize (Hv _ Hin). now apply andb_true_iff in Hv as [Hk _].
+Qed.
+
+Theorem roundtrip b f : valid_boundary b = true -> form_ok b f = true ->
+  exists out, write_form b f = WOk out /\ read_form b (Z.of_nat (length out)) out = Some f.
+Proof.
+  intros Hb Hf. destruct (valid_boundary_facts b Hb) as (Hne & H13 & H10).
+  exists (parts_bytes true b (form_parts f) ++ close_bytes b). split.
+  - unfold write_form. destruct b; [congruence|]. now rewrite Hb.
+  - unfold read_form.
+    set (out := parts_bytes true b (form_parts f) ++ close_bytes b).
+    assert (1 <= length out)%nat as Hlen.
+    { unfold out, close_bytes. rewrite !app_length. cbn [length crlf]. lia. }
+    destruct (Z.leb_spec (Z.of_nat (length out)) 0) as [Hle|_]; [lia|].
+    rewrite Nat2Z.id, firstn_all. destruct b as [|c b']; [congruence|].
+    unfold out at 2. rewrite read_parts_all; auto.
+    + now rewrite (collect_form (c :: b') f Hf).
+    + now apply parts_ok.
+    + unfold out. rewrite app_length. pose proof (parts_len (c :: b') (form_parts f) true). lia.
+Qed.
 End Codec.
